@@ -667,3 +667,80 @@ Proof.
   intros H1 H2 Ha H. pose proof (text_alignment f s ts pos text k line p H1 H2 H) as A. cbn zeta in A |- *.
   rewrite Ha in A. tauto.
 Qed.
+
+(* ====================================================================== C15 crlf_eq_lf, exact condition *)
+(* only a line that is FOLLOWED BY "\r\n" must not itself end in '\r' ("x\r" + "\r\n" loses only one CR);
+   the last line and lines followed by a plain "\n" are unrestricted *)
+Fixpoint crlf_ok (l0 : list Z) (rest : list (bool * list Z)) : Prop :=
+  match rest with
+  | [] => no_nl l0
+  | (crlf, l) :: t => no_nl l0 /\ (crlf = true -> strip_cr l0 = l0) /\ crlf_ok l t
+  end.
+
+Lemma clean_crlf_ok l0 rest :
+  clean_line l0 -> Forall (fun bl => clean_line (snd bl)) rest -> crlf_ok l0 rest.
+Proof.
+  revert l0. induction rest as [|[crlf l] t IH]; intros l0 [Hn Hs] Hall; cbn [crlf_ok]; [exact Hn|].
+  inversion Hall; subst. repeat split; auto.
+Qed.
+
+Lemma crlf_ok_as_lf l0 rest : crlf_ok l0 rest -> crlf_ok l0 (as_lf rest).
+Proof.
+  revert l0. induction rest as [|[crlf l] t IH]; intros l0 H; cbn [crlf_ok as_lf map snd] in *; [exact H|].
+  destruct H as (H1 & _ & H3). repeat split; [exact H1|discriminate|apply IH, H3].
+Qed.
+
+Lemma stripped_lines_of_join l0 rest :
+  crlf_ok l0 rest ->
+  map strip_cr (split_nl (join_lines l0 rest)) = map strip_cr (l0 :: map snd rest).
+Proof.
+  revert l0. induction rest as [|[crlf l] t IH]; intros l0 H; cbn [join_lines map snd crlf_ok] in *.
+  - rewrite split_nl_no_nl by assumption. reflexivity.
+  - destruct H as (Hn & Hc & Ht). destruct crlf.
+    + change (l0 ++ [13; 10] ++ join_lines l t) with (l0 ++ [13] ++ 10 :: join_lines l t).
+      rewrite app_assoc, split_nl_line by (apply no_nl_app; [assumption|intros [H|[]]; discriminate]).
+      cbn [map]. rewrite strip_cr_snoc_cr, (Hc eq_refl), IH by assumption. reflexivity.
+    + change (l0 ++ [10] ++ join_lines l t) with (l0 ++ 10 :: join_lines l t).
+      rewrite split_nl_line by assumption. cbn [map]. rewrite IH by assumption. reflexivity.
+Qed.
+
+Theorem text_lines_crlf_ok f s ts pos l0 rest :
+  crlf_ok l0 rest ->
+  text_lines f s ts pos (join_lines l0 rest) = text_lines f s ts pos (join_lines l0 (as_lf rest)).
+Proof.
+  intros H. unfold text_lines. apply lines_from_strip.
+  rewrite !stripped_lines_of_join by (auto using crlf_ok_as_lf). unfold as_lf. rewrite map_map. reflexivity.
+Qed.
+
+Theorem text_draw_crlf_ok F s ts pos l0 rest :
+  crlf_ok l0 rest ->
+  text_draw F s ts pos (join_lines l0 rest) = text_draw F s ts pos (join_lines l0 (as_lf rest)).
+Proof. intros H. unfold text_draw. rewrite (text_lines_crlf_ok _ _ _ _ _ _ H). reflexivity. Qed.
+
+Theorem text_bbox_crlf_ok f s ts pos l0 rest :
+  crlf_ok l0 rest ->
+  text_bbox f s ts pos (join_lines l0 rest) = text_bbox f s ts pos (join_lines l0 (as_lf rest)).
+Proof. intros H. unfold text_bbox. rewrite (text_lines_crlf_ok _ _ _ _ _ _ H). reflexivity. Qed.
+
+(* the lines that are drawn: the joined lines, each without one trailing '\r' *)
+Theorem text_lines_of_join_ok f s ts pos l0 rest :
+  crlf_ok l0 rest ->
+  map fst (text_lines f s ts pos (join_lines l0 rest)) = map strip_cr (l0 :: map snd rest).
+Proof.
+  intros H. unfold text_lines. rewrite <- (stripped_lines_of_join l0 rest H).
+  generalize (split_nl (join_lines l0 rest)). intros raws. revert pos.
+  induction raws as [|r raws IH]; intros pos; cbn [lines_from map fst]; [reflexivity|]. f_equal. apply IH.
+Qed.
+
+(* ====================================================================== exact positions *)
+Theorem line_position_exact f s ts pos text k line p :
+  0 <= f_cw f -> 0 <= f_sp f ->
+  nth_error (text_lines f s ts pos text) k = Some (line, p) ->
+  let w := line_width f (length line) in
+  p = P (px pos - match t_align ts with ALeft => 0 | ARight => w - 1 | ACenter => Z.quot (w - 1) 2 end)
+        (py pos + Z.of_nat k * text_line_height f ts).
+Proof.
+  intros H1 H2 H. destruct (text_lines_nth _ _ _ _ _ _ _ _ H) as (raw & _ & _ & ->). cbn zeta.
+  unfold line_position. rewrite measure_string_eq by assumption. cbn [snd].
+  destruct (t_align ts); unfold psub, shift_y; cbn [px py]; f_equal; lia.
+Qed.
